@@ -827,7 +827,7 @@ func VerifC17MText(typ, pos, n, mode int, allowUTF8 bool) {
 }
 
 // VerifC17MOpts: inside MarshalJSONTo (api 0 Marshal, 1 MarshalWrite, 2 MarshalEncode on an
-// encoder built with part of the options) enc.Options() shows exactly the caller's options;
+// encoder built with part of the options, 3 MarshalEncode on an encoder holding all of them) enc.Options() shows exactly the caller's options;
 // with reset the method tries enc.Reset, which must panic and leave the outcome untouched.
 func VerifC17MOpts(typ, pos, api int, reset bool) {
 	zz17Reset()
@@ -858,8 +858,14 @@ func VerifC17MOpts(typ, pos, api int, reset bool) {
 		out = buf.Bytes()
 	default:
 		var buf bytes.Buffer
-		enc := jsontext.NewEncoder(&buf, jsontext.AllowInvalidUTF8(bU), jsontext.AllowDuplicateNames(bD))
-		err = MarshalEncode(enc, v, StringifyNumbers(bS), Deterministic(bDet))
+		var enc *jsontext.Encoder
+		if api == 2 {
+			enc = jsontext.NewEncoder(&buf, jsontext.AllowInvalidUTF8(bU), jsontext.AllowDuplicateNames(bD))
+			err = MarshalEncode(enc, v, StringifyNumbers(bS), Deterministic(bDet))
+		} else { // every option already on the encoder
+			enc = jsontext.NewEncoder(&buf, jsontext.AllowInvalidUTF8(bU), jsontext.AllowDuplicateNames(bD), StringifyNumbers(bS), Deterministic(bDet))
+			err = MarshalEncode(enc, v)
+		}
 		out = bytes.TrimSuffix(append([]byte(nil), buf.Bytes()...), []byte("\n"))
 		// "cannot be reset from WITHIN": once the call has returned the caller may reset again.
 		vrt.Assert("C17/mopts/reset-allowed-after-return", !vrt.Misuse(func() { enc.Reset(new(bytes.Buffer)) }))
@@ -1084,19 +1090,23 @@ func VerifC17MFuncs(typ, pos int, spec string, nest bool) {
 
 // VerifC17MFuncsAny: a function for string values disables the untyped fast path: it is called
 // for strings held in any/[]any/map[string]any values (and for the map's keys) in list order.
-func VerifC17MFuncsAny(shape int) {
+// single: the list holds only the MarshalToFunc for string.
+func VerifC17MFuncsAny(shape int, single bool) {
 	zz17Reset()
 	beh := vrt.Choice("beh", 2)
-	ms := JoinMarshalers(
-		MarshalToFunc(func(enc *jsontext.Encoder, s string) error {
-			zz17FLog(0, false)
-			if beh == 1 {
-				return errors.ErrUnsupported
-			}
-			return enc.WriteToken(jsontext.String("F1"))
-		}),
-		MarshalFunc(func(b bool) ([]byte, error) { zz17FLog(1, false); return []byte(`"F2"`), nil }),
-	)
+	ms := MarshalToFunc(func(enc *jsontext.Encoder, s string) error {
+		zz17FLog(0, false)
+		if beh == 1 {
+			return errors.ErrUnsupported
+		}
+		return enc.WriteToken(jsontext.String("F1"))
+	})
+	f2 := `"F2"`
+	if single {
+		f2 = "true"
+	} else {
+		ms = JoinMarshalers(ms, MarshalFunc(func(b bool) ([]byte, error) { zz17FLog(1, false); return []byte(`"F2"`), nil }))
+	}
 	var v any
 	var want string
 	var log []int
@@ -1108,19 +1118,71 @@ func VerifC17MFuncsAny(shape int) {
 	case 0:
 		v, want, log = "s", s, []int{zz17TagF1}
 	case 1:
-		v, want, log = []any{"s", true, nil}, "["+s+`,"F2",null]`, []int{zz17TagF1, zz17TagF2}
+		v, want, log = []any{"s", true, nil}, "["+s+`,`+f2+`,null]`, []int{zz17TagF1, zz17TagF2}
 	case 2:
 		k := `"F1"`
 		if beh == 1 {
 			k = `"k"`
 		}
-		v, want, log = map[string]any{"k": true}, "{"+k+`:"F2"}`, []int{zz17TagF1, zz17TagF2}
+		v, want, log = map[string]any{"k": true}, "{"+k+`:`+f2+`}`, []int{zz17TagF1, zz17TagF2}
 	default:
 		v, want, log = &zz17S[any]{F: "s"}, `{"f":`+s+`}`, []int{zz17TagF1}
+	}
+	if single && len(log) == 2 {
+		log = log[:1]
 	}
 	out, err := Marshal(v, WithMarshalers(ms))
 	vrt.Assert("C17/mfuncsany/called-inside-any", zz17LogIs(log...))
 	vrt.Assert("C17/mfuncsany/representation", err == nil && bytes.Equal(out, []byte(want)))
+	vrt.Cover("done")
+}
+
+// VerifC17UFuncsAny: an unmarshal function for *string is called for JSON strings decoded
+// into an empty interface (directly, inside []any, inside map[string]any for keys and values).
+func VerifC17UFuncsAny(shape int) {
+	zz17Reset()
+	beh := vrt.Choice("beh", 2)
+	us := UnmarshalFromFunc(func(dec *jsontext.Decoder, p *string) error {
+		zz17FLog(10, p == nil)
+		if beh == 1 {
+			return errors.ErrUnsupported
+		}
+		*p = "F"
+		return dec.SkipValue()
+	})
+	w := "F"
+	if beh == 1 {
+		w = "s"
+	}
+	var a any
+	var err error
+	good := false
+	var log []int
+	switch shape {
+	case 0:
+		err = Unmarshal([]byte(`"s"`), &a, WithUnmarshalers(us))
+		g, ok := a.(string)
+		good, log = ok && g == w, []int{zz17TagU1}
+	case 1:
+		err = Unmarshal([]byte(`["s",true]`), &a, WithUnmarshalers(us))
+		g, ok := a.([]any)
+		if ok && len(g) == 2 {
+			g0, ok0 := g[0].(string)
+			g1, ok1 := g[1].(bool)
+			good = ok0 && ok1 && g0 == w && g1
+		}
+		log = []int{zz17TagU1}
+	default:
+		err = Unmarshal([]byte(`{"s":"s"}`), &a, WithUnmarshalers(us))
+		g, ok := a.(map[string]any)
+		if ok && len(g) == 1 {
+			g0, ok0 := g[w].(string)
+			good = ok0 && g0 == w
+		}
+		log = []int{zz17TagU1, zz17TagU1}
+	}
+	vrt.Assert("C17/ufuncsany/called-inside-any", zz17LogIs(log...))
+	vrt.Assert("C17/ufuncsany/stored", err == nil && good && !zz17NilRecv)
 	vrt.Cover("done")
 }
 
@@ -1701,8 +1763,14 @@ func VerifC17UOpts(typ, pos, api int, reset bool) {
 		vals, ok = []int8{int8(v)}, true
 	default:
 		var v zz17UAll
-		dec := jsontext.NewDecoder(bytes.NewReader(in), jsontext.AllowInvalidUTF8(bU), jsontext.AllowDuplicateNames(bD))
-		err = UnmarshalDecode(dec, &v, StringifyNumbers(bS), RejectUnknownMembers(bR))
+		var dec *jsontext.Decoder
+		if api == 2 {
+			dec = jsontext.NewDecoder(bytes.NewReader(in), jsontext.AllowInvalidUTF8(bU), jsontext.AllowDuplicateNames(bD))
+			err = UnmarshalDecode(dec, &v, StringifyNumbers(bS), RejectUnknownMembers(bR))
+		} else { // every option already on the decoder
+			dec = jsontext.NewDecoder(bytes.NewReader(in), jsontext.AllowInvalidUTF8(bU), jsontext.AllowDuplicateNames(bD), StringifyNumbers(bS), RejectUnknownMembers(bR))
+			err = UnmarshalDecode(dec, &v)
+		}
 		vals, ok = []int8{int8(v)}, true
 		vrt.Assert("C17/uopts/reset-allowed-after-return", !vrt.Misuse(func() { dec.Reset(bytes.NewReader(nil)) }))
 	}
